@@ -4,6 +4,8 @@ import (
 	"bytes"
 	"strconv"
 	"time"
+
+	"github.com/scrapli/scrapligo/util"
 )
 
 const (
@@ -27,14 +29,20 @@ func (d *Driver) read() {
 	patterns := getNetconfPatterns()
 
 	for {
+		util.Yield("nc.read.top")
+
 		select {
 		case <-d.done:
 			return
 		default:
 		}
 
+		util.Yield("nc.read.pre")
+
 		rb, err := d.Channel.Read()
 		if err != nil {
+			util.Yield("nc.read.send")
+
 			d.errs <- err
 		}
 
